@@ -435,9 +435,10 @@ LY_ERR
 lys_compile_expr_implement(const struct ly_ctx *ctx, const struct lyxp_expr *expr, LY_VALUE_FORMAT format,
         void *prefix_data, ly_bool implement, struct lys_glob_unres *unres, const struct lys_module **mod_p)
 {
-    uint32_t i;
+    uint32_t i, j, impl_count;
     const char *ptr, *start, **imp_f, *all_f[] = {"*", NULL};
     const struct lys_module *mod;
+    struct lys_module *m;
 
     assert(implement || mod_p);
 
@@ -469,6 +470,7 @@ lys_compile_expr_implement(const struct ly_ctx *ctx, const struct lyxp_expr *exp
             break;
         }
 
+        impl_count = unres->implementing.count;
         if (!mod->implemented) {
             /* implement if not implemented */
             imp_f = (ctx->flags & LY_CTX_ENABLE_IMP_FEATURES) ? all_f : NULL;
@@ -477,6 +479,14 @@ lys_compile_expr_implement(const struct ly_ctx *ctx, const struct lyxp_expr *exp
         if (!mod->compiled) {
             /* compile if not implemented before or only marked for compilation */
             LY_CHECK_RET(lys_compile((struct lys_module *)mod, &unres->ds_unres));
+        }
+
+        /* compile also the target modules of its augments and deviations that were implemented with the module */
+        for (j = impl_count; j < unres->implementing.count; ++j) {
+            m = unres->implementing.objs[j];
+            if (!m->compiled) {
+                LY_CHECK_RET(lys_compile(m, &unres->ds_unres));
+            }
         }
     }
 
